@@ -5,6 +5,9 @@ props = {json.loads(l)['id']: json.loads(l) for l in open('/verif/properties.jso
 # wrote for their own changes (seeded/<id>_<n>/meta.json) - nothing about the checkers.
 rnd = sys.argv[1]
 ids = sys.argv[2:]
+# BASE_REFACTOR=r2: the worktree starts from HEAD + refactors/<id>_r2/patch.diff (a behaviour-preserving restructuring written by
+# another sub-agent), so that the breaking change lands in restructured code; the delivered patch.diff is the complete diff vs HEAD
+BASE = os.environ.get("BASE_REFACTOR")
 import glob
 TAKEN = {}
 for m in sorted(glob.glob("/verif/seeded/*/meta.json")):
@@ -19,6 +22,14 @@ for pid in ids:
     if not os.path.exists(wt):
         subprocess.run(["git","-C","/repo","worktree","add","--detach",wt,"HEAD"],check=True,capture_output=True)
     os.makedirs(out, exist_ok=True)
+    base_txt = ""
+    if BASE:
+        bp = f"/verif/refactors/{pid}_{BASE}/patch.diff"
+        import shutil
+        shutil.copy(bp, f"{out}/baseline.diff")
+        if not subprocess.run(["git", "-C", wt, "diff", "--quiet"]).returncode:
+            subprocess.run(["git", "-C", wt, "apply", f"{out}/baseline.diff"], check=True)
+        base_txt = f"""\n\nBASELINE: your worktree is HEAD plus uncommitted local modifications by a colleague - a recent behaviour-preserving internal restructuring (all tests pass with it, results are identical to HEAD). It is stored as {out}/baseline.diff; `git -C {wt} checkout -- . && git -C {wt} apply {out}/baseline.diff` restores the baseline at any time. Treat the restructured code as THE code: wherever the text below says "ORIGINAL tree" it means this baseline, and your change must be made on top of it - preferably INSIDE the restructured code (the helpers, records and tables the colleague introduced). Because nothing is committed, `git -C {wt} diff` at the end is the complete diff relative to HEAD (the colleague's restructuring plus your change): deliver exactly that as patch.diff. demo.py must pass on the baseline (and therefore also on plain HEAD) and fail with your change."""
     taken = TAKEN.get(pid, "(none)")
     anchors = json.dumps(p.get("anchors"), indent=1).replace("/repo/", wt + "/")
     txt = f"""You are helping evaluate how robust a verification effort is. You are given ONE behavioural property of the FEniCS/ufl Python library (UFL, the Unified Form Language) and your own scratch git worktree of the library at {wt} (a checkout of the current HEAD). Work ONLY inside {wt} and write your outputs to {out}. Do not look at or touch /repo or /verif, and do not read anything outside {wt} except the Python standard library / installed packages.
@@ -28,6 +39,8 @@ Statement: {p['statement']}
 Quantifier: {p['quantifier']['text']}
 Why tests cannot settle it: {p['why_tests_cant']}
 Code anchors (where the behaviour lives): {anchors}
+
+{base_txt.strip() and ("BASELINE NOTE:" + base_txt) }
 
 ALREADY TAKEN (another engineer has already produced a change with this idea; you must choose a clearly DIFFERENT one - different function or mechanism): {taken}\n\nYOUR TASK: produce ONE realistic change (a plausible bug a maintainer could introduce: a refactor slip, an over-eager optimisation/simplification, a wrong index/sign/guard, a forgotten case, a cache keyed too coarsely, two cooperating sites that each look fine alone, ...) to the library source under {wt}/ufl/ that BREAKS the property above while:
   (a) the package still imports and the WHOLE existing test-suite still passes unchanged:  cd {wt} && PYTHONPATH={wt} /venv/bin/python -m pytest -q -p no:cacheprovider -n 8   (977 tests, ~10 s; you must run this with your change applied and see it pass — do not edit anything under test/ or demo/);
